@@ -243,6 +243,8 @@ TopFrames(s) ==
     \o [i \in 1..Len(s.clients) |-> Frame("inst", s.clients[i].a)]
     \o NonEmpty(<<Frame("map", s.tv), Frame("map", s.kw)>>)
 
+BotCount(s) == Len(NonEmpty(<<Frame("map", MergeDefaults(s.ck, s.cm)), Frame("map", s.map)>>))
+
 RECURSIVE PushEvs(_, _, _)
 PushEvs(fs, i, d) == IF i > Len(fs) THEN <<>>
                      ELSE <<PushEv(fs[i].kind, d + i)>> \o PushEvs(fs, i + 1, d)
@@ -264,7 +266,10 @@ Init ==
     /\ LET fs == TopFrames(Case.src) IN
          /\ ns = fs
          /\ evs = PushEvs(fs, 1, 0)
-    /\ ctl = <<[k |-> "call", base |-> 0, lvl |-> 0, top |-> TRUE], RbAt(Case.prog, 0)>>
+    \* the frames for the defaults and the call mapping are pushed before `pushed` starts counting:
+    \* the outermost call never pops them (its TemplateDict is dropped instead)
+    /\ ctl = <<[k |-> "call", base |-> BotCount(Case.src), lvl |-> 0, top |-> TRUE],
+               RbAt(Case.prog, Len(TopFrames(Case.src)))>>
     /\ level = 1
     /\ calls = <<>> /\ ninv = 0 /\ exc = NoExc /\ ret = NoRet
     /\ result = [k |-> "pending"]
@@ -283,7 +288,7 @@ CallRet ==
     /\ level' = Top.lvl
     /\ IF Top.top
        THEN /\ result' = [k |-> "text", v |-> ret.v]
-            /\ ns' = SubSeq(ns, 1, 0) /\ evs' = evs \o PopEvs(Len(ns), 0)
+            /\ ns' = SubSeq(ns, 1, Top.base) /\ evs' = evs \o PopEvs(Len(ns), Top.base)
             /\ ctl' = <<>> /\ ret' = NoRet
        ELSE Complete(ret.v) /\ UNCHANGED result
     /\ UNCHANGED <<tid, plan, calls, ninv, exc>>
@@ -295,12 +300,12 @@ CallExc ==
        THEN \* except DTReturn as v: result = v.v
             IF Top.top
             THEN /\ result' = [k |-> "value", v |-> exc.v]
-                 /\ ns' = SubSeq(ns, 1, 0) /\ evs' = evs \o PopEvs(Len(ns), 0)
+                 /\ ns' = SubSeq(ns, 1, Top.base) /\ evs' = evs \o PopEvs(Len(ns), Top.base)
                  /\ ctl' = <<>> /\ exc' = NoExc /\ ret' = NoRet
             ELSE Complete(PlainText(exc.v)) /\ exc' = NoExc /\ UNCHANGED result
        ELSE IF Top.top
             THEN /\ result' = [k |-> "exc", cls |-> exc.cls, msg |-> exc.msg]
-                 /\ ns' = SubSeq(ns, 1, 0) /\ evs' = evs \o PopEvs(Len(ns), 0)
+                 /\ ns' = SubSeq(ns, 1, Top.base) /\ evs' = evs \o PopEvs(Len(ns), Top.base)
                  /\ ctl' = <<>> /\ exc' = NoExc /\ ret' = NoRet
             ELSE Abandon(exc) /\ UNCHANGED result
     /\ UNCHANGED <<tid, plan, calls, ninv>>
@@ -472,6 +477,21 @@ SvFrame(items, idx, pre) ==
 
 Reverse(s) == [i \in 1..Len(s) |-> s[Len(s) + 1 - i]]
 
+\* sort=a (a = "": by the element itself, or by the key of a (key, value) pair): a stable sort on
+\* the rank `o` the harness gives to every value that is used as a sort key (DTSort.tla has the
+\* full sort machine; here only what C10 needs to place the sequence variables)
+Rank(e, a) == IF a = "" THEN (IF e.k = "pair" THEN e.key.o ELSE e.o) ELSE AttrOf(e, a).o
+
+RECURSIVE InsertSorted(_, _, _)
+InsertSorted(s, e, a) ==
+    IF s = <<>> THEN <<e>>
+    ELSE IF Rank(Head(s), a) <= Rank(e, a) THEN <<Head(s)>> \o InsertSorted(Tail(s), e, a)
+    ELSE <<e>> \o s
+
+RECURSIVE SortItems(_, _)
+SortItems(s, a) == IF s = <<>> THEN <<>>
+                   ELSE InsertSorted(SortItems(SubSeq(s, 1, Len(s) - 1), a), s[Len(s)], a)
+
 RbIn ==
     /\ AtNode("in")
     /\ LET q == EvalRef(Node.c) IN
@@ -479,7 +499,8 @@ RbIn ==
          /\ IF q.out.tag = "exc"
             THEN exc' = q.out.e /\ UNCHANGED <<ctl, ns, evs>>
             ELSE LET items0 == q.out.v.items
-                     items  == IF Node.reverse THEN Reverse(items0) ELSE items0 IN
+                     items1 == IF Node.sorted /\ items0 # <<>> THEN SortItems(items0, Node.sortkey) ELSE items0
+                     items  == IF Node.reverse THEN Reverse(items1) ELSE items1 IN
                  /\ UNCHANGED exc
                  /\ IF items = <<>>
                     THEN \* else block, rendered without any push
@@ -502,7 +523,9 @@ ItemFrames(nd, e) ==
     LET c == ItemOf(e) IN
     IF nd.nopush THEN <<>>
     ELSE IF nd.mapping THEN <<Frame("map", c.a)>>
-    ELSE IF c.k = "plain" /\ "num" \notin DOMAIN c THEN <<>>        \* strings are not pushed
+    \* strings are not pushed -- the type test is made on the element before a (key, value)
+    \* pair is split, so the string of a pair is pushed (as an InstanceDict without useful names)
+    ELSE IF c.k = "plain" /\ "num" \notin DOMAIN c /\ e.k # "pair" THEN <<>>
     ELSE IF c.k = "plain" THEN <<Frame("inst", EmptyFn)>>           \* numbers: InstanceDict(int)
     ELSE <<Frame("inst", c.a)>>
 
@@ -645,12 +668,12 @@ StackDiscipline == \A i \in 1..Len(ctl) : Len(ns) >= ctl[i].base
 ExitRestores == [][ (Len(ctl') < Len(ctl) /\ Top.k # "rb") => ns' = SubSeq(ns, 1, Top.base) ]_vars
 
 \* C08: at the end of the outermost call nothing is left and the level is back
-CallBalanced == Done => (ns = <<>> /\ level = 0 /\ result.k # "pending")
+CallBalanced == Done => (Len(ns) = BotCount(Case.src) /\ level = 0 /\ result.k # "pending")
 
 \* the namespace log is balanced
 RECURSIVE Depth(_, _)
 Depth(l, i) == IF i = 0 THEN 0 ELSE l[i][3]
-EvsBalanced == Done => (evs = <<>> \/ evs[Len(evs)][3] = 0)
+EvsBalanced == Done => (evs = <<>> \/ evs[Len(evs)][3] = BotCount(Case.src))
 
 \* no exception and no return register survive the end
 Quiescent == Done => (exc.k = "none" /\ ~ret.f)
@@ -667,5 +690,6 @@ PlanT == [i \in 1..Cardinality(DOMAIN plan) |->
             IN <<k, plan[k]>>]
 
 Export == Done => PrintT(ToJson([tid |-> tid, plan |-> PlanT, result |-> result,
-                                 calls |-> calls, evs |-> evs, ninv |-> ninv]))
+                                 calls |-> calls, evs |-> evs, ninv |-> ninv,
+                                 depth |-> Len(ns), level |-> level]))
 =============================================================================
